@@ -1843,12 +1843,14 @@ func (t *tScreen) collectEventsFromInput(buf *bytes.Buffer, expire bool) []Event
 			// to the app & let them sort it out.  Possibly we
 			// should only do this for control characters like ESC.
 			by, _ := buf.ReadByte()
-			mod := ModNone
+			// (a control byte keeps the Ctrl that NewEventKey gives
+			// it when the Alt of a preceding ESC is added)
+			ev := NewEventKey(KeyRune, rune(by), ModNone)
 			if t.escaped {
 				t.escaped = false
-				mod = ModAlt
+				ev.mod |= ModAlt
 			}
-			res = append(res, NewEventKey(KeyRune, rune(by), mod))
+			res = append(res, ev)
 			continue
 		}
 
